@@ -210,7 +210,7 @@ def hostkey_section(ctx, H, quick, rnd, state):
         rnd.shuffle(tab)
         disc = [h for h in tab if hk_discriminating(h)]
         rest = [h for h in tab if not hk_discriminating(h)]
-        nd, nr = (110, 40) if quick else (900, 300)
+        nd, nr = (90, 25) if quick else (900, 300)
         for h in disc[:nd] + rest[:nr]:
             run_one(h, None)
         # interleavings: two connections of the history, every order of the
@@ -227,7 +227,7 @@ def hostkey_section(ctx, H, quick, rnd, state):
             seen.add(k)
             pairs.append(h2)
         scheds = H.interleavings(2)
-        for n, h2 in enumerate(pairs[:(30 if quick else 250)]):
+        for n, h2 in enumerate(pairs[:(24 if quick else 250)]):
             for sch in scheds:
                 run_one(h2, sch)
         if not quick:
@@ -671,7 +671,7 @@ def main(ctx):
     # two edits
     t2 = tables['dh', 2]
     rnd.shuffle(t2)
-    for ci, case in enumerate(t2[:120 if quick else 1500]):
+    for ci, case in enumerate(t2[:80 if quick else 1500]):
         kex = main_fams[ci % 4]
         replay_case(kex, case, names_for(kex, pick_others(kex)), variant=ci,
                     run_command=False)
@@ -700,7 +700,7 @@ def main(ctx):
     for cat, table in pair_tables:
         if cat == 'enc+mac' and quick:
             rnd.shuffle(table)
-            table = table[:300]
+            table = table[:220]
         for ci, case in enumerate(table):
             tri = kex_triples[ci % 3 if cat == 'kex' and not quick else 0]
             names = names_for(tri[0], tri[1:])
@@ -792,7 +792,7 @@ def main(ctx):
         return n
 
     if quick:
-        byte_sweep('curve25519-sha256', 2, True, [0x01, 0x80, 0xff],
+        byte_sweep('curve25519-sha256', 3, True, [0x01, 0x80, 0xff],
                    'bytes')
         for kex in ['diffie-hellman-group-exchange-sha256', 'rsa2048-sha256',
                     'diffie-hellman-group14-sha256', 'ecdh-sha2-nistp256',
